@@ -323,8 +323,8 @@ func (a *Agent) sender() {
 // Sends a batch using the gossip network reliable transport
 // to  other nodes based on the routing policy applied
 func (a *Agent) Send(msg *Message) {
-	// if ttl is 0, the message dies here
-	if msg.TTL == 0 {
+	// if ttl is exhausted, the message dies here
+	if msg.TTL <= 0 {
 		return
 	}
 
